@@ -94,8 +94,10 @@ def one(sc, binary, scratch):
             # what happened on the listener BEFORE this client must not matter (here: accept() itself failed
             # for a while because the daemon ran out of descriptors)
             tacdrun.behave(t.listen, sc["prelude"], [])
-        for offer in OFFERS:
-            res["shakes"].append((offer, tacdrun.handshake(t.listen, offer, timeout=6.0)))
+        for k, offer in enumerate(OFFERS):
+            # every other client speaks TLS 1.2 at most (a validation server may: RFC 8737 §3)
+            res["shakes"].append((offer, tacdrun.handshake(t.listen, offer, timeout=6.0,
+                                                           max_tls12=(sc["idx"] + k) % 2 == 1)))
         res["alive"] = t.alive()
     finally:
         try:
